@@ -35,6 +35,10 @@ type G struct {
 	state  int
 	goid   uint64
 	resume chan struct{}
+	// Tag orders goroutines the runtime did not create (no simrt.Go): two of them may reach their first
+	// scheduling point at the same moment, so their registration order is not reproducible; the names of
+	// the channels they select on (NameChan) are.
+	Tag string
 }
 
 var (
@@ -47,7 +51,15 @@ var (
 	objSeq  = map[interface{}]int{}
 	nextObj int
 	yields  int64
+	chanTag = map[uintptr]string{}
 )
+
+// NameChan gives a channel a stable name (see G.Tag).
+func NameChan(ch interface{}, name string) {
+	mu.Lock()
+	defer mu.Unlock()
+	chanTag[reflect.ValueOf(ch).Pointer()] = name
+}
 
 // Enable starts a simulation: from now on instrumented operations park.
 func Enable(c Chooser) {
@@ -61,6 +73,7 @@ func Enable(c Chooser) {
 	objSeq = map[interface{}]int{}
 	nextObj = 0
 	yields = 0
+	chanTag = map[uintptr]string{}
 }
 
 // ReleaseAll ends the simulation: every parked goroutine continues freely (pass-through mode), so
@@ -103,14 +116,14 @@ func goid() uint64 {
 	return id
 }
 
-func current(name string) *G {
+func current(name, tag string) *G {
 	id := goid()
 	mu.Lock()
 	defer mu.Unlock()
 	g := byGoid[id]
 	if g == nil {
 		nextG++
-		g = &G{ID: nextG, Name: name, goid: id, resume: make(chan struct{})}
+		g = &G{ID: nextG, Name: name, Tag: tag, goid: id, resume: make(chan struct{})}
 		byGoid[id] = g
 		all = append(all, g)
 	}
@@ -118,14 +131,16 @@ func current(name string) *G {
 }
 
 // park blocks the calling goroutine until the scheduler resumes it.
-func park(site string) {
+func park(site string) { parkTag(site, "") }
+
+func parkTag(site, tag string) {
 	mu.Lock()
 	if !enabled {
 		mu.Unlock()
 		return
 	}
 	mu.Unlock()
-	g := current("ext")
+	g := current("ext", tag)
 	mu.Lock()
 	if !enabled {
 		mu.Unlock()
@@ -152,6 +167,13 @@ func Runnable() []*G {
 			out = append(out, g)
 		}
 	}
+	// tagged goroutines (see G.Tag) after the others, by tag; everything else in creation order
+	sort.SliceStable(out, func(i, j int) bool {
+		if (out[i].Tag != "") != (out[j].Tag != "") {
+			return out[i].Tag == ""
+		}
+		return out[i].Tag < out[j].Tag
+	})
 	return out
 }
 
@@ -365,7 +387,17 @@ func (s *Select) Run() int {
 		}
 		return i
 	}
-	park(s.site)
+	tag := ""
+	mu.Lock()
+	for _, cs := range s.cases {
+		if cs.Chan.IsValid() && !cs.Chan.IsNil() {
+			if n, ok := chanTag[cs.Chan.Pointer()]; ok {
+				tag += n + ","
+			}
+		}
+	}
+	mu.Unlock()
+	parkTag(s.site, tag)
 	// poll the cases in an order chosen by the choice stream; commit the first that is ready
 	n := len(s.cases)
 	order := make([]int, n)
